@@ -71,10 +71,11 @@ OpsAt(root, p) ==
       top == p = <<>>
       iter == top \/ n.t \in IterTypes
       lo == IF top THEN 2 ELSE 1                          \* ftyp stays first
+      hi == IF top /\ Base = "plaineof" THEN Len(n.kids) ELSE Len(n.kids) + 1   \* a to-end-of-file mdat stays last
   IN (IF iter /\ "free" \in OpKinds
-      THEN {[op |-> "free", path |-> p, at |-> i, len |-> ln, big |-> bg] : i \in lo..(Len(n.kids) + 1), ln \in {0, 5}, bg \in BOOLEAN} ELSE {})
+      THEN {[op |-> "free", path |-> p, at |-> i, len |-> ln, big |-> bg] : i \in lo..hi, ln \in {0, 5}, bg \in BOOLEAN} ELSE {})
      \cup (IF iter /\ "unk" \in OpKinds
-           THEN {[op |-> "unk", path |-> p, at |-> i, cc |-> ZZZZ, len |-> 3, big |-> bg] : i \in lo..(Len(n.kids) + 1), bg \in BOOLEAN} ELSE {})
+           THEN {[op |-> "unk", path |-> p, at |-> i, cc |-> ZZZZ, len |-> 3, big |-> bg] : i \in lo..hi, bg \in BOOLEAN} ELSE {})
      \cup (IF "swap" \in OpKinds /\ ~top /\ n.t \in SwapTypes
            THEN {[op |-> "swap", path |-> p, i |-> i, j |-> j] : i \in 1..Len(n.kids), j \in 1..Len(n.kids)} \
                 {x \in {[op |-> "swap", path |-> p, i |-> i, j |-> j] : i \in 1..Len(n.kids), j \in 1..Len(n.kids)} : x.i >= x.j}
@@ -83,15 +84,17 @@ OpsAt(root, p) ==
            THEN {[op |-> "swap", path |-> p, i |-> i, j |-> j] : i \in 2..Len(n.kids), j \in 2..Len(n.kids)} \
                 {x \in {[op |-> "swap", path |-> p, i |-> i, j |-> j] : i \in 2..Len(n.kids), j \in 2..Len(n.kids)} : x.i >= x.j}
            ELSE {})
-     \cup (IF "large" \in OpKinds /\ ~top /\ ~n.large THEN {[op |-> "large", path |-> p]} ELSE {})
+     \cup (IF "large" \in OpKinds /\ ~top /\ ~n.large /\ ~n.eof THEN {[op |-> "large", path |-> p]} ELSE {})
      \cup (IF "spare" \in OpKinds /\ ~top /\ n.leaf /\ n.t \in SpareTypes /\ n.spare = <<>>
            THEN {[op |-> "spare", path |-> p, len |-> 3]} ELSE {})
 
 IsFrag == Base \in {"frag", "fragdef", "fragmf"}
 BaseTree == IF IsFrag THEN FragTreeZero(TheFragMovie, "one") ELSE PlainTree(PlainMovie, ZeroOffsets(PlainMovie))
-Applicable(os) == Let(ApplyOps(BaseTree, os, 1), LAMBDA root : UNION {OpsAt(root, p) : p \in Paths(root)})
+\* "plaineof": the media data box is the last box and says "to the end of the file" (size field 0)
+Pre == IF Base = "plaineof" THEN <<[op |-> "eof", path |-> <<3>>]>> ELSE <<>>
+Applicable(os0) == Let(Pre \o os0, LAMBDA os : Let(ApplyOps(BaseTree, os, 1), LAMBDA root : UNION {OpsAt(root, p) : p \in Paths(root)}))
 
-RenderIt(os) == IF IsFrag THEN RenderFrag(TheFragMovie, "one", os).file ELSE RenderPlain(PlainMovie, os)
+RenderIt(os) == IF IsFrag THEN RenderFrag(TheFragMovie, "one", os).file ELSE RenderPlain(PlainMovie, Pre \o os)
 ImgOf(bytes) == [start |-> <<>>, len |-> FromInt(Len(bytes)), segs |-> <<[off |-> <<>>, bytes |-> bytes]>>]
 
 \* what the specification's decoder reads back from a rendered layout, without the offsets
@@ -122,7 +125,9 @@ Next == Apply \/ Render
 Spec == Init /\ [][Next]_vars
 
 \* the reference view: the unmodified layout
-RefView == ViewOf(Decoded(IF Base = "fragmf" THEN RenderFrag(FragMovie, "one", <<>>).file ELSE RenderIt(<<>>)))
+RefView == ViewOf(Decoded(CASE Base = "fragmf" -> RenderFrag(FragMovie, "one", <<>>).file
+                            [] Base = "plaineof" -> RenderPlain(PlainMovie, <<>>)
+                            [] OTHER -> RenderIt(<<>>)))
 LayoutInvariant == out.done => out.view = RefView
 Emit == out.done => PrintT("CASE " \o ToJson([file |-> out.bytes, ops |-> ops, base |-> Base, fields |-> out.fields]))
 =============================================================================
